@@ -645,6 +645,18 @@ class RecView:
     def __init__(self, base, roi):
         self.base, self.roi = base, roi
 
+    @property
+    def dtype(self):
+        return self.base.dtype
+
+    @property
+    def ndim(self):
+        """dimensions left after basic indexing: an integer drops its axis, axes not mentioned stay"""
+        roi = self.roi if isinstance(self.roi, tuple) else (self.roi,)
+        if any(r is Ellipsis for r in roi):
+            return self.base.ndim
+        return self.base.ndim - sum(1 for r in roi if not isinstance(r, slice))
+
 
 class RecArray:
     def __init__(self, shape, fill, dtype):
@@ -653,7 +665,7 @@ class RecArray:
 
     @property
     def ndim(self):
-        return len(self.shape)
+        return len(self.shape) - len(self.squeezed or ())
 
     def __getitem__(self, roi):
         return RecView(self, roi)
